@@ -324,3 +324,25 @@ CHECKS["C15"] = {
         {"name": "concurrent-race", "run": "^TestC15Concurrent$", "kind": "rapid", "race": True, "tiers": ["thorough"], "checks": {"thorough": 400}, "shards": {"thorough": 8}},
     ],
 }
+
+CHECKS["C08"] = {
+    "pkg": "props/c08",
+    "level": "exploration",
+    "rule": "A temp tree (files of every length 0..12, files of MaxSmallFileSize-1/0/+1 bytes and 70000 bytes, directories with and without index file, a canary outside the root) served by the real engine through StaticFS (+PathRewrite; byte ranges on/off; Compress; GenerateIndexPages; IndexNames), Static, StaticFile, ctx.File and ctx.FileFromFS. "
+            "range-grid: every file length 0..6 (thorough 0..12) x 5 routes x every Range form a-b / a- / -n for a,b,n in 0..N+1 plus 20 malformed, reversed, wrong-unit and overflowing forms x {GET, HEAD, GET again}; random: keep-alive connections of 1..5 requests over paths incl. traversal attempts, directories, missing files, random ranges around the file length, If-Modified-Since older/equal/newer/garbage, Accept-Encoding gzip, repeated requests (file cache). "
+            "One evaluation = one request judged; non-trivial = carries a Range header or is a repeated (cached) request.",
+    "assumptions": [
+        "single ranges only; ignoring Range (200 whole file) is always acceptable; unsatisfiable/invalid ranges may get 416 or 200 but never 206",
+        "a byte position beyond int64 may be clamped (RFC) or refused with 416 (hertz)",
+        "directories: index file, generated listing, 403/404 or the router's trailing-slash redirect are all accepted; Content-Type is not compared",
+        "files are created with a fixed mtime in the past; 304 is only legal when If-Modified-Since >= mtime",
+    ],
+    "level_text": "Bounded-exhaustive + random exploration against an RFC 7233 single-range reference computed over the real file bytes, with the response decoded by a strict reader (Content-Length == body, keep-alive stream in sync), HEAD mirrored against GET, gzip bodies decompressed and compared, and a canary outside the root.",
+    "level_note": "Trusts the reference range classifier and path normaliser; standard transport over a scripted connection.",
+    "technique": "bounded-exhaustive range grid + rapid request sequences against an RFC 7233 reference over real files",
+    "nontrivial_floor": 500,
+    "units": [
+        {"name": "range-grid", "run": "^TestC08RangeGrid$", "kind": "plain", "shards": 8},
+        {"name": "random", "run": "^TestC08Random$", "kind": "rapid", "checks": {"quick": 4000, "thorough": 100000}, "shards": {"quick": 4, "thorough": 16}},
+    ],
+}
